@@ -26,6 +26,11 @@ struct SLabel {
     bool operator==(const SLabel &o) const { return s == o.s && d == o.d; }
 };
 
+// user-defined EMPTY class as label: still a labelled graph (getEdgeLabel on a missing edge throws)
+struct EmptyTag {
+    bool operator==(const EmptyTag &) const { return true; }
+};
+
 static const int ALPHA_N = 8; // index 0 is always the default-constructed label
 
 template <class L, class = void>
@@ -35,6 +40,12 @@ template <>
 struct Alpha<BaseGraph::NoLabel> {
     static BaseGraph::NoLabel get(int) { return BaseGraph::NoLabel(); }
     static const char *name() { return "none"; }
+};
+
+template <>
+struct Alpha<EmptyTag> {
+    static EmptyTag get(int) { return EmptyTag(); }
+    static const char *name() { return "empty"; }
 };
 
 template <class T>
@@ -87,7 +98,7 @@ struct Alpha<float> {
 template <>
 struct Alpha<std::string> {
     static std::string get(int i) {
-        static const char *v[ALPHA_N] = {"", "a", "b", "hello world", "x\ty  z", "0 1 2", "#tag",
+        static const char *v[ALPHA_N] = {"", "a", "\xa0" "b\xc3\x89", "hello world", "x\ty  z", "0 1 2", "#tag",
                                          "a-long-label-that-does-not-fit-in-the-small-string-buffer-0123456789"};
         return v[((i % ALPHA_N) + ALPHA_N) % ALPHA_N];
     }
